@@ -44,7 +44,7 @@ def _prepare(args):
                 src = getattr(importlib.import_module(srcgen[0]), srcgen[1])(schema, chunk, b.sb.top_header())
             else:
                 src = build.driver_source(schema, chunk, b.sb.top_header(), want=want)
-            hdrs = b"".join(open(os.path.join(cxx.CXXDIR, h), "rb").read() for h in ("drv.hpp", "harness.hpp", "cx.hpp"))
+            hdrs = b"".join(open(os.path.join(cxx.CXXDIR, h), "rb").read() for h in ("drv.hpp", "harness.hpp", "cx.hpp", "px.hpp", "rec.hpp"))
             dg = cxx.src_digest(src, hdrs, defines)
             cpp = os.path.join(root, "drv_%d_%s.cpp" % (i, dg))
             if not os.path.exists(cpp):
